@@ -226,12 +226,30 @@ impl boxworks::TextPreprocessor for TextPreprocessorImpl {
                 if self.space_factor.0 >= 2000 {
                     g.width += self.fonts[self.current_font as usize].extra_space;
                 }
-                g.stretch = g.stretch.xn_over_d(self.space_factor.0, 1000).unwrap().0;
-                g.shrink = g.shrink.xn_over_d(1000, self.space_factor.0).unwrap().0;
+                g.stretch = xn_over_d_unchecked(g.stretch, self.space_factor.0, 1000);
+                g.shrink = xn_over_d_unchecked(g.shrink, 1000, self.space_factor.0);
                 g
             }
         };
         list.push(ds::Horizontal::Glue(g.into()));
+    }
+}
+
+/// Calculates _xn_/_d_ like TeX.2021.1044 does.
+///
+/// TeX calls `xn_over_d` there and does not look at `arith_error` afterwards.
+/// If the result is too large TeX just carries on with the value that
+/// `xn_over_d` (TeX.2021.107) returns in this case: the intermediate quantity `u`,
+/// which is _xn_/2^15 rounded towards zero.
+fn xn_over_d_unchecked(x: common::Scaled, n: i32, d: i32) -> common::Scaled {
+    match x.xn_over_d(n, d) {
+        Ok((result, _)) => result,
+        Err(_) => {
+            let u = (x.0 as i64).abs() * (n as i64) / 0o100000;
+            // The space factor is at most 2^15-1 so |u|<2^31 and the conversion never fails.
+            let u = i32::try_from(u).unwrap_or(i32::MAX);
+            common::Scaled(if x.0 < 0 { -u } else { u })
+        }
     }
 }
 
